@@ -143,6 +143,11 @@ public:
   TypesByName _types_by_name;
   FunctionsByName _functions_by_name;
   MakeSeqsByName _make_seqs_by_name;
+
+  // Maps the scoped name of each synthesized cast function to the type it
+  // casts to, so that two targets with the same simple name are told apart.
+  typedef std::map<std::string, std::string> CastTargets;
+  CastTargets _cast_targets;
   PropertiesByName _properties_by_name;
 
   typedef std::map<std::string, char> IncludeFiles;
